@@ -56,7 +56,9 @@ MAP_FAULTS = ["get-absent", "rem-absent", "set-wrongkey", "set-wrongval", "get-w
               "resize-shrink", "set-nullkey", "set-nullval", "get-nullkey", "null-object", "push-on-map",
               "mem-nullkey", "rem-nullkey"]
 STR_FAULTS = ["rem-absent", "concat-null", "concat-int", "get-member-empty", "print-too-few", "push-unimplemented", "cint-unimplemented",
-              "print-too-few-gen", "scan-too-few"]
+              "print-too-few-gen", "scan-too-few",
+              # a String that does not own a heap buffer cannot honour any resize - growing, shrinking or to its own length
+              "resize-nonheap"]
 VAL_FAULTS = ["range-get-idx", "slice-get-idx", "int-len", "int-push", "int-assign-string", "float-assign-string",
               "print-too-few-string", "type-call-new-null", "range-push", "int-cstr",
               "zip-get-idx", "map-get-idx", "filter-get", "unimpl", "ctor-baditem"]
@@ -477,6 +479,13 @@ def run_str(ctx, case):
             model = model + b"1 "
     elif f in ("print-too-few-gen", "scan-too-few"):
         return run_fmt(ctx, case, P, model)
+    elif f == "resize-nonheap":
+        n = len(model)
+        P.add("tmp %%1 s:%s" % model.hex())
+        for to in sorted({0, n // 2, max(0, n - 1), n, n + 1, n + 40}):
+            P.add("resize %%1 %d" % to, expect_exc("ValueError"))
+            P.add("cstr %1", expect_ok(model.hex()))
+            P.add("len %1", expect_ok(str(n)))
     elif f == "push-unimplemented":
         P.add("push %0 i:1", expect_exc("ClassError"))
         P.add("pop %0", expect_exc("ClassError"))
